@@ -6,7 +6,8 @@ From YV Require Import Gen.PatConsts Pat.Syntax Pat.Sem Pat.Matcher Pat.MatcherP
   Pat.Modifiers Pat.ModifiersProofs Pat.MatchList Pat.MatchListProofs
   Pat.C01Check Pat.C01CheckProofs Pat.Base64 Pat.Base64Proofs Pat.Chain Pat.ChainProofs
   Pat.Atoms Pat.AtomsProofs Pat.Pipeline Pat.PipelineProofs Pat.PipelineB64Proofs
-  Pat.ChainRun Pat.ChainRunProofs Pat.ChainCompleteProofs Pat.PipelineB64CompleteProofs Pat.ChainEndProofs.
+  Pat.ChainRun Pat.ChainRunProofs Pat.ChainCompleteProofs Pat.PipelineB64CompleteProofs Pat.ChainEndProofs
+  Gen.JumpCoalesce Pat.Jumps Pat.JumpsProofs.
 Import ListNotations.
 
 (* ---- R |= S : the reference matcher ------------------------------------ *)
@@ -442,3 +443,16 @@ Theorem chain_greedy_not_the_longest :
     left gp evs 1 s e 0 /\ (m_end y < N.of_nat e)%N.
 Proof. exact chain_greedy_longest_refuted. Qed.
 Print Assumptions chain_greedy_not_the_longest.
+
+(* ---- consecutive jumps of a hex pattern ------------------------------------------------ *)
+(* the jump hex2hir.rs puts in place of two consecutive jumps (the arithmetic is read
+   from the source: Gen/JumpCoalesce.v) matches exactly what the two jumps match one
+   after the other *)
+Theorem coalesced_jump_keeps_the_language : forall nc d j1 j2 i k, jump_wf j1 -> jump_wf j2 ->
+  (M nc d (RCat (jump_re j1) (jump_re j2)) i k <-> M nc d (jump_re (coalesce j1 j2)) i k).
+Proof. exact coalesce_language. Qed.
+Print Assumptions coalesced_jump_keeps_the_language.
+
+Theorem coalesced_jump_is_well_formed : forall j1 j2, jump_wf j1 -> jump_wf j2 -> jump_wf (coalesce j1 j2).
+Proof. exact coalesce_wf. Qed.
+Print Assumptions coalesced_jump_is_well_formed.
